@@ -1,5 +1,6 @@
 // UTF ops: drive Convert::Utf::{Transcode, Utf8, Utf16Le, ...}::{Decode,Encode} of the current tree.
 #include "harness.h"
+#include <vector>
 #include "bitserializer/conversion_detail/convert_utf.h"
 
 using namespace vh;
@@ -20,7 +21,9 @@ std::string run(const Tokens& t, Fn fn) {
 	TOut markStr; const typename TOut::value_type* mark = nullptr;
 	if (t[4] != "null") { markStr = toStr<TOut>(parseUnits(t[4])); mark = markStr.c_str(); }
 	TOut out = toStr<TOut>(parseUnits(t[5]));
-	const TIn in = toStr<TIn>(parseUnits(t[6]));
+	const TIn inStr = toStr<TIn>(parseUnits(t[6]));
+	// the input lives in a heap block of EXACTLY its size (no terminator behind it): reading the unit at `end` is an ASan report
+	const std::vector<typename TIn::value_type> in(inStr.begin(), inStr.end());
 	const auto* b = in.data(); const auto* e = in.data() + in.size();
 	auto res = fn(b, e, out, pol, mark);
 	const char* code = res.ErrorCode == U::UtfEncodingErrorCode::Success ? "ok"
@@ -53,6 +56,28 @@ std::string transcodeFrom(const Tokens& t, int wo) {
 	}
 	throw BadOp("wo");
 }
+
+// the same with wchar_t / std::wstring on the 32-bit side(s): a 32-bit code unit type that is not char32_t
+template <class TIn>
+std::string transcodeFromW(const Tokens& t, int wo) {
+	switch (wo) {
+	case 8: return transcode<TIn, std::string>(t);
+	case 16: return transcode<TIn, std::u16string>(t);
+	case 32: return transcode<TIn, std::wstring>(t);
+	}
+	throw BadOp("wo");
+}
+Register r1w("utf.transcodew", [](const Tokens& t) -> std::string {
+	if (t.size() != 7) throw BadOp("arity");
+	static_assert(sizeof(wchar_t) == 4, "wchar_t is a 32-bit type on this platform");
+	const int wi = std::stoi(t[1]), wo = std::stoi(t[2]);
+	switch (wi) {
+	case 8: return transcodeFromW<std::string>(t, wo);
+	case 16: return transcodeFromW<std::u16string>(t, wo);
+	case 32: return transcodeFromW<std::wstring>(t, wo);
+	}
+	throw BadOp("wi");
+});
 
 Register r1("utf.transcode", [](const Tokens& t) -> std::string {
 	if (t.size() != 7) throw BadOp("arity");
